@@ -20,7 +20,7 @@ from .. import tablecheck
 from ..interp import AnalysisError, Adt, I, Opq, Ref, Str, Sym, Top
 from ..mir import Program
 from ..report import Report
-from . import common
+from . import common, l4
 
 COMMON = "precis_profiles::common::"
 NK = "precis_profiles::nicknames::"
@@ -360,7 +360,8 @@ def run(tier):
     res = tablecheck.get(prog)
     tablecheck.report_tables(rep, res, {ts.P + "common::SPACE_SEPARATOR"}, rule="L5")
     common.lookup_sites(prog, rep)
-    # is_space_separator / is_non_ascii_space bind to the table and to SPACE
+    # is_space_separator is exactly membership in the Zs table (L4); is_non_ascii_space binds to it and to SPACE
+    l4.check_lookup_predicate(prog, rep, COMMON + "is_space_separator", ts.P + "common::SPACE_SEPARATOR")
     nas = prog.body(COMMON + "is_non_ascii_space")
     if nas is None:
         rep.ob("password-rule", "is_non_ascii_space", False, "not found")
